@@ -299,10 +299,10 @@ package connect
 //@   ensures implCalls() == old(implCalls()) || implCalls() == old(implCalls()) + 1                                  // label: user-code-at-most-once
 //@   ensures old(isBidiOverHTTP1(h, request)) ==> (rwstatus(responseWriter) == 505 || rwstatus(responseWriter) == 405) && implCalls() == old(implCalls())   // label: bidi-over-http1-505
 //@   ensures old(!isBidiOverHTTP1(h, request) && request.Method != "POST") ==> rwstatus(responseWriter) == 405 && hvals(rwheader(responseWriter), "Allow") == ["POST"] && implCalls() == old(implCalls())   // label: non-post-405-allow-post
-//@   ensures old(!isBidiOverHTTP1(h, request) && request.Method == "POST" && !accepted(h, hget(request.Header, "Content-Type"))) ==> rwstatus(responseWriter) == 415 && hvals(rwheader(responseWriter), "Accept-Post") == [old(h.acceptPost)] && implCalls() == old(implCalls())   // label: unserved-content-type-415-accept-post
+//@   ensures old(!isBidiOverHTTP1(h, request) && request.Method == "POST" && !accepted(h, joined(hvals(request.Header, "Content-Type"), ", "))) ==> rwstatus(responseWriter) == 415 && hvals(rwheader(responseWriter), "Accept-Post") == [old(h.acceptPost)] && implCalls() == old(implCalls())   // label: unserved-content-type-415-accept-post
 //@   ensures called("protocolHandler.NewConn", 1) && !callresb("protocolHandler.NewConn", 1, 1) ==> implCalls() == old(implCalls())   // label: negotiation-failure-runs-no-user-code
 //@   ensures called("protocolHandler.SetTimeout", 1) && callres("protocolHandler.SetTimeout", 1, 2) != nil ==> implCalls() == old(implCalls())   // label: invalid-timeout-runs-no-user-code
-//@   ensures old(!isBidiOverHTTP1(h, request) && request.Method == "POST" && accepted(h, hget(request.Header, "Content-Type"))) && callresb("protocolHandler.NewConn", 1, 1) && callres("protocolHandler.SetTimeout", 1, 2) == nil ==> implCalls() == old(implCalls()) + 1   // label: accepted-runs-exactly-once
+//@   ensures old(!isBidiOverHTTP1(h, request) && request.Method == "POST" && accepted(h, joined(hvals(request.Header, "Content-Type"), ", "))) && callresb("protocolHandler.NewConn", 1, 1) && callres("protocolHandler.SetTimeout", 1, 2) == nil ==> implCalls() == old(implCalls()) + 1   // label: accepted-runs-exactly-once
 //@   assert@call(field:Handler.implementation#1): arg0 == callres("protocolHandler.SetTimeout", 1, 0) && callres("protocolHandler.SetTimeout", 1, 2) == nil   // label: handler-context-is-the-timeout-context
 //@   loop 1:
 //@     invariant 0 - 1 <= rangeindex && rangeindex < |h.protocolHandlers| && protocolHandler == nil
